@@ -162,3 +162,42 @@ package proto
 //@ contract lemmaIPv4FromAddr(ip) (r) props(C20)
 //@   requires ip.is4 && forall j in 12..16 :: 0 <= ip.bytes[j] && ip.bytes[j] < 256
 //@   ensures r.is4 && forall j in 12..16 :: r.bytes[j] == ip.bytes[j]
+
+// ---------------------------------------------------------------------------
+// Buffer primitives, byte level (C01, C02, C14, C15, C17)
+
+//@ -- appendOnly(b, n): b.Buf grew by exactly n bytes and the old content is untouched
+//@ spec func appendOnly(b Val, n Int) Bool = len(b.Buf) == old(len(b.Buf)) + n && forall k in 0..old(len(b.Buf)) :: b.Buf[k] == old(b.Buf[k])
+
+//@ contract (b *Buffer) PutUInt8(x) props(C01,C17)
+//@   requires b != nil
+//@   modifies b.Buf
+//@   ensures appendOnly(b, 1) && b.Buf[old(len(b.Buf))] == x
+//@ contract (b *Buffer) PutByte(x) props(C01,C17)
+//@   requires b != nil
+//@   modifies b.Buf
+//@   ensures appendOnly(b, 1) && b.Buf[old(len(b.Buf))] == x
+//@ contract (b *Buffer) PutBool(v) props(C01,C17)
+//@   requires b != nil
+//@   modifies b.Buf
+//@   ensures appendOnly(b, 1) && b.Buf[old(len(b.Buf))] == ite(v, 1, 0)
+//@ contract (b *Buffer) PutUInt16(x) props(C01,C17)
+//@   requires b != nil
+//@   modifies b.Buf
+//@   ensures appendOnly(b, 2) && forall j in 0..2 :: b.Buf[old(len(b.Buf)) + j] == byte16(x, j)
+//@ contract (b *Buffer) PutUInt32(x) props(C01,C17)
+//@   requires b != nil
+//@   modifies b.Buf
+//@   ensures appendOnly(b, 4) && forall j in 0..4 :: b.Buf[old(len(b.Buf)) + j] == byte32(x, j)
+//@ contract (b *Buffer) PutUInt64(x) props(C01,C17)
+//@   requires b != nil
+//@   modifies b.Buf
+//@   ensures appendOnly(b, 8) && forall j in 0..8 :: b.Buf[old(len(b.Buf)) + j] == byte64(x, j)
+//@ contract (b *Buffer) PutUVarInt(x) props(C01,C17)
+//@   requires b != nil
+//@   modifies b.Buf
+//@   ensures appendOnly(b, uvsize(x)) && forall j in 0..uvsize(x) :: b.Buf[old(len(b.Buf)) + j] == uvbyte(x, j)
+//@ contract (b *Buffer) PutRaw(v) props(C01,C17)
+//@   requires b != nil
+//@   modifies b.Buf
+//@   ensures appendOnly(b, len(v)) && forall j in 0..len(v) :: b.Buf[old(len(b.Buf)) + j] == v[j]
